@@ -2164,6 +2164,7 @@ Section Proofs.
     | ENoMin => rfc_min vs f = true
     | ENoMax => rfc_max vs f = true
     | ENoUniq => rfc_unique vs f = true
+    | EState => True
     end.
 
   Lemma lookup_in sch s i : lookup sch s = Some i -> exists k, In (k, i) sch.
@@ -2276,6 +2277,7 @@ Proof.
   destruct e; cbn [class_ok ClassOK]; try reflexivity.
   - split; auto.
   - rewrite !andb_true_iff. tauto.
+  - split; auto.
 Qed.
 
 Lemma rules_hold_classes ty vs f : rules_hold ty vs f = true <-> forall e, class_ok ty vs f e = true.
